@@ -45,3 +45,53 @@ Theorem C01_piece_count : forall pl files align, 0 < pl -> files <> [] ->
   = ceil_div (entries_total (v1_entries align pl (map (@length ascii) files))) pl.
 Proof. exact hasher_inputs_count. Qed.
 Print Assumptions C01_piece_count.
+
+(* ---------------------------------------------------------------------------------------------- *)
+(* creator level: what TorrentFile(...).write() records (Model/Creators.v [create_v1] = MetaFile.__init__, *)
+(* utils._filelist_total, TorrentFile.assemble, sort_meta; tied to torrent.py byte for byte by the unit   *)
+(* correspondence of harness/props/creators_common.py).  A payload is a [node] whose directory entries    *)
+(* are in the order the OS enumerated them; [files_of [] t] = every file under t, once, as (path          *)
+(* components, content); [info_get key m] reads info[key] of the written dictionary m; [entry_of] reads   *)
+(* (path components, length) of an entry of info["files"]; [is_pad] = the entry has an "attr" key.        *)
+(* `false` is align=False (the --align variant is C15's subject).                                         *)
+(* ---------------------------------------------------------------------------------------------- *)
+From Coq Require Import Permutation.
+From TF Require Import Model.Bencode Model.Creators Proofs.CreatorsProofs Proofs.CreatorsProofs2 Proofs.CreatorsProps.
+
+(* info["files"] lists every file of the directory exactly once with its exact length, and nothing else
+   (no padding entries); as a multiset of (path, length): whatever the enumeration order *)
+Theorem C01_files_exactly_once : forall (H1 : bytes -> bytes) o root name pl es,
+  exists l, info_get k_files (create_v1 H1 false o root name pl (Dir es)) = Some (BList l) /\
+    Forall (fun v => is_pad v = false) l /\
+    Permutation (map entry_of l) (map (fun f => (fst f, length (snd f))) (files_of [] (Dir es))).
+Proof. exact v1_files_exactly_once. Qed.
+Print Assumptions C01_files_exactly_once.
+
+(* info["pieces"] is the BEP 3 hashing of exactly the listed files in the listed order: there is one list fl
+   of (path, content) -- a permutation of the files on disk -- such that info["files"] is fl entry by entry
+   and info["pieces"] is SHA-1 of the successive piece-length slices of the concatenation of fl's contents *)
+Theorem C01_created_pieces_are_bep3 : forall (H1 : bytes -> bytes) o root name pl es,
+  0 < pl -> has_file (Dir es) ->
+  let m := create_v1 H1 false o root name pl (Dir es) in
+  exists fl, Permutation fl (files_of [] (Dir es)) /\
+    info_get k_files m = Some (BList (map (fun f => file_entry (fst f) (length (snd f))) fl)) /\
+    info_get k_length m = None /\
+    info_get k_pieces m = Some (BStr (concat (map H1 (chunks pl (concat (map snd fl)))))).
+Proof. exact v1_pieces_are_bep3. Qed.
+Print Assumptions C01_created_pieces_are_bep3.
+
+(* single file: info["length"] = its size, no files list, pieces = hashing of the file alone (--align or not) *)
+Theorem C01_created_single_file : forall (H1 : bytes -> bytes) align o root name pl (d : bytes), 0 < pl ->
+  let m := create_v1 H1 align o root name pl (File d) in
+  info_get k_length m = Some (BInt (Z.of_nat (length d))) /\
+  info_get k_files m = None /\
+  info_get k_pieces m = Some (BStr (concat (map H1 (chunks pl d)))).
+Proof. exact create_v1_single_file. Qed.
+Print Assumptions C01_created_single_file.
+
+(* the name and the piece length the hashing used are the ones recorded *)
+Theorem C01_piece_length_recorded : forall (H1 : bytes -> bytes) align o root name pl t,
+  let m := create_v1 H1 align o root name pl t in
+  info_get k_name m = Some (BStr name) /\ info_get k_piece_length m = Some (BInt (Z.of_nat pl)).
+Proof. exact create_v1_name_piece_length. Qed.
+Print Assumptions C01_piece_length_recorded.
